@@ -78,6 +78,7 @@ func (a Authorizer) Handle(response tq.Response, request tq.Request) {
 				tq.SetAuthorReplyServerMsg("not authorized"),
 			),
 		)
+		return
 	}
 
 	if authorizer := NewCommandBasedAuthorizer(request.Context, a.loggerProvider, body, a.user); authorizer != nil {
